@@ -17,6 +17,10 @@ fn main() {
         let code = mcmc_verif::props::child_main(&args[1..]);
         std::process::exit(code);
     }
+    if args[0] == "BENCH2" {
+        mcmc_verif::props::bench2();
+        return;
+    }
     if args[0] == "BENCH" {
         mcmc_verif::props::bench();
         return;
